@@ -53,13 +53,13 @@ def _jsonable(x):
 
 
 class Case:
-    def __init__(self, run, case_seed, kind):
-        self.run, self.case_seed, self.kind = run, case_seed, kind
+    def __init__(self, run, case_seed, kind, icase=0):
+        self.run, self.case_seed, self.kind, self.icase = run, case_seed, kind, icase
         self.info = {}
         self.n_checks = 0
 
     def violation(self, sig, **kw):
-        obj = dict(module="search_c02", generator=self.kind, case_seed=self.case_seed, signature=sig)
+        obj = dict(module="search_c02", generator=self.kind, case_seed=self.case_seed, icase=self.icase, signature=sig)
         obj.update(self.info)
         obj.update(kw)
         self.run.count("violation:" + sig)
@@ -187,7 +187,7 @@ def _check_qn_labels(case, op, ttno, descs, bl, total_qn, **kw):
 # ---------------------------------------------------------------------------------------------
 def _case_random_tree(run, rng, quick, case_seed, icase):
     from renormalizer import Model, Mpo
-    case = Case(run, case_seed, "random-tree")
+    case = Case(run, case_seed, "random-tree", icase)
     qn_mode = L.QN_MODES[icase % 3]
     n = int(rng.integers(1, 7 if quick else 8))
     descs = L.random_basis_descs(rng, n, qn_mode)
@@ -377,7 +377,7 @@ def _tree_shape_checks(case, name, tree, basis_list, params):
 
 def _case_builders(run, rng, quick, case_seed, icase):
     from renormalizer.tn.treebase import BasisTree
-    case = Case(run, case_seed, "builders")
+    case = Case(run, case_seed, "builders", icase)
     qn_mode = L.QN_MODES[icase % 3]
     n = int(rng.integers(1, 9 if quick else 11))
     descs = L.random_basis_descs(rng, n, qn_mode)
@@ -458,7 +458,7 @@ def _case_rejections(run, rng, quick, case_seed, icase):
     """documented / out-of-quantifier rejections, counted for the input distribution"""
     from renormalizer.tn.tree import TTNO
     from renormalizer import Op
-    case = Case(run, case_seed, "rejections")
+    case = Case(run, case_seed, "rejections", icase)
     descs = L.random_basis_descs(rng, 3, "none", kinds=["spin"])
     descs2, spec = L.random_tree_spec(rng, descs)
     bl = L.make_basis_list(descs2)
@@ -475,6 +475,16 @@ def _case_rejections(run, rng, quick, case_seed, icase):
 
 
 # ---------------------------------------------------------------------------------------------
+GENERATORS = {}
+
+
+def replay(run, obj, quick=True):
+    """re-run the case of a replay object (fields generator, case_seed, icase) against the current tree"""
+    fn = GENERATORS[obj["generator"]]
+    seed = int(obj["case_seed"])
+    return fn(run, np.random.default_rng(seed), quick, seed, int(obj.get("icase", 0)))
+
+
 def search(run, rng, quick):
     t0 = time.time()
     budget = 50.0 if quick else 540.0
@@ -511,3 +521,6 @@ def search(run, rng, quick):
                        "a case (basis sets + trees + term list from its own seed) is distinct by its seed and "
                        "non-trivial when the operator is non-zero and at least 3 comparisons ran")
     run.cov["budget_stop"] = stopped
+
+
+GENERATORS.update({"random-tree": _case_random_tree, "builders": _case_builders, "rejections": _case_rejections})
